@@ -43,7 +43,8 @@ def _miri_jobs(plan, tier):
         procs = pq if tier == "quick" else pt
         for p in range(procs):
             a = p * per
-            jobs.append((scenario, sd, a, a + per, 1000 + p, preempt, feats))
+            # both aliasing models: even processes Tree Borrows, odd ones Stacked Borrows
+            jobs.append((scenario, sd, a, a + per, 1000 + p, preempt, feats, "tb" if p % 2 == 0 else "sb"))
     return jobs
 
 
@@ -146,12 +147,14 @@ def run_c11(tier):
         dict(engine="c11s", quick=3000000, thorough=40000000, build="default"),
         dict(engine="c11d", quick=400000, thorough=6000000, build="default"),
         dict(engine="c15", quick=300000, thorough=4000000, build="default", env={"VERIF_ALLOC_JUNK": "165"}, prefix="C11/native-poison/"),
+        dict(engine="c11c", quick=100000, thorough=1500000, build="default", env={"VERIF_ALLOC_JUNK": "165"}, prefix="C11/native-poison/"),
         dict(engine="c02", quick=100000, thorough=1500000, build="default", env={"VERIF_ALLOC_JUNK": "165"}, prefix="C11/native-poison/"),
     ]
     sums, vios = _native("C11", parts, tier)
     plan = [
         ("strains", "", 16, 96, 30, 0.0),
         ("life15", "", 16, 96, 3, 0.0),
+        ("consume", "", 16, 96, 4, 0.0),
         ("life02", "", 8, 48, 2, 0.0),
         ("sliders", "", 16, 96, 12, 0.0),
     ]
